@@ -198,6 +198,28 @@ func channelProtocol(res *Result, rng *Rng, n int) {
 				}
 			})
 		}
+		if len(chanCases) < 200 && err == nil {
+			num := map[string]int{"": 0, "main": 1, "b": 2, "c": 3, "d": 4}
+			var ws, cs []string
+			for _, e := range evs {
+				if e.end {
+					ws = append(ws, fmt.Sprintf("WEnd %d", num[e.ch]))
+				} else {
+					ws = append(ws, fmt.Sprintf("WBatch %d [%d]", num[e.ch], e.v))
+				}
+			}
+			for _, g := range got {
+				i := strings.Index(g, ":")
+				if g[:i] == "end" {
+					cs = append(cs, fmt.Sprintf("CEnd %d", num[g[i+1:]]))
+				} else {
+					var v int
+					fmt.Sscanf(g[i+1:], "{v:%d}", &v)
+					cs = append(cs, fmt.Sprintf("CBatch %d [%d]", num[g[:i]], v))
+				}
+			}
+			chanCases = append(chanCases, fmt.Sprintf("([%s], [%s])", strings.Join(ws, "; "), strings.Join(cs, "; ")))
+		}
 		res.Evaluations++
 		res.Count("channel_protocol_streams")
 		res.Distinctly(strings.Join(want, " "))
@@ -210,6 +232,8 @@ func channelProtocol(res *Result, rng *Rng, n int) {
 		}
 	}
 }
+
+var chanCases []string
 
 type nopWC struct{ io.Writer }
 
